@@ -192,6 +192,7 @@ def run(P, R, tier):
     builder(P, R, HR)
     parent_union(P, R, HR.members['_build_hilbert_rtree'][1])
     tree_arith(P, R, HR, NR, meth)
+    leaf_coverage(P, R, HR)
     for m in (meth['intersects'], meth['covers_overlaps']):
         cursor_discipline(P, R, m)
         pairing(P, R, m)
@@ -672,6 +673,136 @@ def tree_arith(P, R, HR, NR, meth):
     R.exhaustive_sites['C03.e tree arithmetic, depths 0..6'] = True
     R.check(not bad, 'C03.e', ls, None, f'builder and reader agree on leaf_start and on the key slice of every node (depths 0..6, {evals} evaluations)',
             f'builder and reader disagree on the node <-> key-slice mapping: {bad[:3]}', construct='leaf_start / _start_index / _stop_index', counterexamples=bad[:6])
+
+
+class _Unk(Exception):
+    pass
+
+
+def _ceval(e, env):
+    """Concrete evaluation of the integer arithmetic that sizes the tree.  env maps names to numbers; '__N' is the number of input rows, '__K' a
+    data-dependent count (any `.sum()` / `count_nonzero` over the data: between 0 and N), '__rows' the names of row-array parameters."""
+    import math
+    if isinstance(e, ast.Constant) and isinstance(e.value, (int, float)) and not isinstance(e.value, bool):
+        return e.value
+    if isinstance(e, ast.Name):
+        if e.id in env:
+            return env[e.id]
+        raise _Unk(e.id)
+    if isinstance(e, ast.Subscript) and isinstance(e.value, ast.Attribute) and e.value.attr == 'shape' and norm(e.value.value) in env['__rows'] and norm(e.slice) == '0':
+        return env['__N']
+    if isinstance(e, ast.UnaryOp) and isinstance(e.op, ast.USub):
+        return -_ceval(e.operand, env)
+    if isinstance(e, ast.BinOp):
+        a, b = _ceval(e.left, env), _ceval(e.right, env)
+        t = type(e.op)
+        try:
+            if t is ast.Add:
+                return a + b
+            if t is ast.Sub:
+                return a - b
+            if t is ast.Mult:
+                return a * b
+            if t is ast.Div:
+                return a / b
+            if t is ast.FloorDiv:
+                return a // b
+            if t is ast.Mod:
+                return a % b
+            if t is ast.Pow:
+                return a ** b
+            if t is ast.LShift:
+                return a << b
+        except (ZeroDivisionError, ValueError, OverflowError):
+            raise _Unk('arithmetic error')
+        raise _Unk(norm(e))
+    if isinstance(e, ast.Call):
+        fn = norm(e.func)
+        if fn == 'len' and len(e.args) == 1 and norm(e.args[0]) in env['__rows']:
+            return env['__N']
+        if (isinstance(e.func, ast.Attribute) and e.func.attr in ('sum', 'count_nonzero')) or fn in ('np.count_nonzero', 'np.sum', 'sum'):
+            return env['__K']            # a count taken from the data
+        args = [_ceval(a, env) for a in e.args]
+        try:
+            if fn in ('int', 'np.int64', 'np.intp'):
+                return int(args[0])
+            if fn in ('float',):
+                return float(args[0])
+            if fn in ('np.ceil', 'math.ceil', 'ceil'):
+                return math.ceil(args[0])
+            if fn in ('np.floor', 'math.floor', 'floor'):
+                return math.floor(args[0])
+            if fn in ('np.log2', 'math.log2', 'log2'):
+                return math.log2(args[0]) if args[0] > 0 else float('-inf')
+            if fn in ('max', 'np.maximum'):
+                return max(args)
+            if fn in ('min', 'np.minimum'):
+                return min(args)
+            if fn in ('abs',):
+                return abs(args[0])
+        except (ValueError, OverflowError, TypeError):
+            raise _Unk('arithmetic error')
+    raise _Unk(norm(e))
+
+
+def leaf_coverage(P, R, HR):
+    """C03.e (coverage): the leaf pages [page * page_size, (page + 1) * page_size), page < num_pages, cover EVERY stored row, and the tree has a leaf
+    for every page.  All input rows are stored (C03.g) - rows without a box included - so a page count taken from anything but the number of input
+    rows leaves the rows at the end of the Hilbert order in no page: they are never returned.  Evaluated on N in 1..40 x page_size in 1..7 x every value
+    of a data-dependent count."""
+    f = HR.members['_build_hilbert_rtree'][1]
+    defs = {}
+    for s in walk_own(f.node):
+        if isinstance(s, ast.Assign) and len(s.targets) == 1 and isinstance(s.targets[0], ast.Name):
+            defs.setdefault(s.targets[0].id, []).append(s)
+    page_loop = None
+    for s in walk_own(f.node):
+        if isinstance(s, ast.For) and isinstance(s.target, ast.Name) and isinstance(s.iter, ast.Call) and norm(s.iter.func) in ('range', 'prange') and len(s.iter.args) == 1 \
+                and any(isinstance(x, ast.Assign) and isinstance(x.targets[0], ast.Subscript) and 'bounds_tree' in norm(x.targets[0].value) for x in ast.walk(s)):
+            page_loop = s
+    if page_loop is None or 'tree_depth' not in defs:
+        R.abstain('C03.e', f, None, 'page loop / tree_depth of the builder not in the recognised form')
+        return
+    rows = {f.params[0]}
+    ps = next((p_ for p_ in f.params if 'page' in p_), None)
+    if ps is None:
+        R.abstain('C03.e', f, None, 'page size parameter of the builder not recognised')
+        return
+    npages_e = astq.expand(f, page_loop.iter.args[0])
+    depth_e = astq.expand(f, defs['tree_depth'][-1].value)
+    bad, unk, evals = [], None, 0
+    uses = _uses_count(npages_e) or _uses_count(depth_e)
+    for N in range(1, 41):
+        for page_size in range(1, 8):
+            for K in (range(0, N + 1) if uses else (0,)):
+                env = {'__N': N, '__K': K, '__rows': rows, ps: page_size}
+                try:
+                    npg = _ceval(npages_e, env)
+                    dep = _ceval(depth_e, env)
+                except _Unk as e:
+                    unk = str(e)
+                    break
+                evals += 1
+                if not (isinstance(npg, int) and npg * page_size >= N):
+                    bad.append(f'N={N} rows, page_size={page_size}' + (f', data-dependent count={K}' if uses else '') + f': {npg} pages hold {npg * page_size if isinstance(npg, int) else "?"} rows')
+                elif not (isinstance(dep, int) and 2 ** dep >= npg):
+                    bad.append(f'N={N} rows, page_size={page_size}: {npg} pages but only {2 ** dep if isinstance(dep, int) and dep >= 0 else "?"} leaves')
+            if unk:
+                break
+        if unk:
+            break
+    if unk is not None:
+        R.abstain('C03.e', f, page_loop.iter, f'the number of pages `{norm(npages_e)}` could not be evaluated ({unk})')
+        return
+    R.count('typed_ops', evals)
+    R.exhaustive_sites['C03.e leaf coverage, N in 1..40 x page_size in 1..7'] = True
+    R.check(not bad, 'C03.e', f, page_loop.iter, f'the leaf pages cover every stored row and every page has a leaf ({evals} evaluations)',
+            f'the leaf pages do not cover every stored row: the number of pages is `{norm(npages_e)}`; {bad[:3]} - rows beyond the last page are in no leaf and are never returned by a query',
+            construct='leaf pages cover all rows', counterexamples=bad[:6])
+
+
+def _uses_count(e):
+    return any(isinstance(c, ast.Call) and ((isinstance(c.func, ast.Attribute) and c.func.attr in ('sum', 'count_nonzero')) or norm(c.func) in ('np.count_nonzero', 'np.sum', 'sum')) for c in ast.walk(e))
 
 
 def cursor_discipline(P, R, m):
